@@ -9,13 +9,17 @@
       + src/ocfl/inventory.rs:139-146 create_staging_head -> first half of [Stage]
     - src/ocfl/repo.rs:1033-1084 commit_inner            -> [Commit]
     - src/ocfl/store/fs.rs:371-413 write_new_object      -> [Commit], new object
-    - src/ocfl/store/fs.rs:420-494 write_new_version     -> [Commit], new version
+    - src/ocfl/store/fs.rs:426-520 write_new_version     -> [Commit], new version
+      (with the comparison of the base versions added by fix e1679ed, fs.rs:446-459,
+       and Version::same_as, inventory.rs:681-689)
     - src/ocfl/repo.rs:838-843   reset_all               -> [ResetAll]
     - src/ocfl/repo.rs:521-534   purge_object            -> [Purge]
 
     Abstractions: the bytes of a version are abstracted to its logical state
     (logical path -> digest token); an object directory is abstracted to the
-    list of its committed versions v1..vh, the head version number recorded in
+    list of its committed versions v1..vh (each = what the code compares: a
+    METADATA token standing for the triple created/message/user, and the
+    state), the head version number recorded in
     its root inventory and a LINEAGE token (a number that is fresh at every
     creation of an object directory, so purge + re-creation of the same id
     yields a different lineage - the code keeps no such token, it is how the
@@ -42,6 +46,29 @@ Definition apply_edit (e : edit) (s : vstate) : vstate :=
 Definition apply_edits (es : list edit) (s : vstate) : vstate :=
   fold_left (fun acc e => apply_edit e acc) es s.
 
+(** A committed version as far as the code ever compares two of them
+    (Version::same_as, inventory.rs:681-689): the metadata - [created], [message],
+    [user], abstracted to one token: equal tokens = equal triples - and the state.
+    rocfl stamps [created] with Local::now() (nanoseconds) unless the caller
+    passes an explicit time, so the token of a commit is fresh unless two
+    commits are given the same explicit metadata. *)
+Definition cver := (N * vstate)%type.
+
+(** same_as on states: same size and every (path -> digest) of one found in the other *)
+Definition vstate_same (a c : vstate) : bool :=
+  Nat.eqb (List.length a) (List.length c)
+  && forallb (fun x => existsb (fun y => bytes_eqb (fst x) (fst y) && (snd x =? snd y)) c) a.
+Definition cver_same (a c : cver) : bool := (fst a =? fst c) && vstate_same (snd a) (snd c).
+
+(** fs.rs:448-459: every version of the object in the main repository must be in the staged
+    inventory under the same number (VersionNum keys compare by number) and be [same_as] it *)
+Fixpoint base_same (main stg : list cver) : bool :=
+  match main, stg with
+  | [], _ => true
+  | x :: main', y :: stg' => cver_same x y && base_same main' stg'
+  | _ :: _, [] => false
+  end.
+
 (** * Association lists (executable finite maps) *)
 Section AMap.
   Variables K V : Type.
@@ -66,7 +93,9 @@ Arguments aput {K V} eqb k v m.
 
 (** An object of the main repository: the root inventory's head and the states
     of its versions v1..vh in order. *)
-Record obj := mkObj { o_lineage : N; o_head : vnum; o_versions : list vstate }.
+Record obj := mkObj { o_lineage : N; o_head : vnum; o_versions : list cver; o_cfg : N }.
+(** [o_cfg]: one token for the object-level settings the commit compares besides the padding
+    width (fix 5c18ef1, fs.rs:446-456): digest algorithm and content directory. *)
 
 (** A staged inventory: a copy of the main inventory it was cloned from
     ([s_versions], [s_base] = the lineage it was cloned from, [None] for an
@@ -74,8 +103,8 @@ Record obj := mkObj { o_lineage : N; o_head : vnum; o_versions : list vstate }.
     [s_state].  [s_edits] is a ghost field: the staged changes made since the
     clone, in order (it never influences a result). *)
 Record staged := mkStg {
-  s_base : option N; s_head : vnum; s_versions : list vstate;
-  s_state : vstate; s_edits : list edit }.
+  s_base : option N; s_head : vnum; s_versions : list cver;
+  s_state : vstate; s_edits : list edit; s_cfg : N }.
 
 Definition skey := (N * bytes)%type.      (* client, object id *)
 Definition skey_eqb (a c : skey) : bool := (fst a =? fst c) && bytes_eqb (snd a) (snd c).
@@ -104,9 +133,9 @@ Definition purge_st (st : mc) (c : N) (id : bytes) : mc :=
 
 (** * Operations of one client *)
 Inductive op :=
-| New (id : bytes) (w : N)        (* rocfl new -z w id *)
+| New (id : bytes) (w k : N)      (* rocfl new -z w [-d alg -c contentdir] id; k = token of (alg, contentdir) *)
 | Stage (id : bytes) (e : edit)   (* rocfl cp / mv / rm ... id *)
-| Commit (id : bytes)             (* rocfl commit id *)
+| Commit (id : bytes) (m : N)     (* rocfl commit id; m = metadata token of the new version *)
 | ResetAll (id : bytes)           (* rocfl reset id *)
 | Purge (id : bytes).             (* rocfl purge id *)
 
@@ -119,14 +148,14 @@ Inductive op :=
     and every cp / commit of such an object is refused by the operating system. *)
 Definition v1_stored (w : N) : vnum := if w =? 1 then mkV 1 0 else mkV 1 w.
 
-Definition last_state (vs : list vstate) : vstate := last vs [].
+Definition last_state (vs : list cver) : vstate := snd (last vs (0, [])).
 
 (** One atomic operation of client [c].  [dbg]: overflow checks of the build
     (see Model/VersionNum.v).  Result [Err]: the command fails, [Panic]: the
     process aborts; in both cases nothing was written. *)
 Definition step (dbg : bool) (st : mc) (c : N) (o : op) : mc * res unit :=
   match o with
-  | New id w =>
+  | New id w k =>
       (* repo.rs:576-585: refuse when the id exists in the main repository;
          fs.rs:678-687 (stage_object): refuse when it exists in this staging root *)
       match mget st id with
@@ -134,7 +163,7 @@ Definition step (dbg : bool) (st : mc) (c : N) (o : op) : mc * res unit :=
       | None =>
           match sget st c id with
           | Some _ => (st, Err)
-          | None => (set_stag st c id (mkStg None (v1_stored w) [] [] []), Ok tt)
+          | None => (set_stag st c id (mkStg None (v1_stored w) [] [] [] k), Ok tt)
           end
       end
   | Stage id e =>
@@ -142,7 +171,7 @@ Definition step (dbg : bool) (st : mc) (c : N) (o : op) : mc * res unit :=
       | Some s =>
           (* repo.rs:1092-1093: the staged inventory is used as it is *)
           (set_stag st c id (mkStg (s_base s) (s_head s) (s_versions s)
-                                   (apply_edit e (s_state s)) (s_edits s ++ [e])), Ok tt)
+                                   (apply_edit e (s_state s)) (s_edits s ++ [e]) (s_cfg s)), Ok tt)
       | None =>
           (* repo.rs:1095: NotFound when the object is not in the main repository either *)
           match mget st id with
@@ -152,13 +181,13 @@ Definition step (dbg : bool) (st : mc) (c : N) (o : op) : mc * res unit :=
               match vnext dbg (o_head o) with
               | Ok h =>
                   (set_stag st c id (mkStg (Some (o_lineage o)) h (o_versions o)
-                                           (apply_edit e (last_state (o_versions o))) [e]), Ok tt)
+                                           (apply_edit e (last_state (o_versions o))) [e] (o_cfg o)), Ok tt)
               | Err => (st, Err)
               | Panic => (st, Panic)
               end
           end
       end
-  | Commit id =>
+  | Commit id m =>
       match sget st c id with
       | None => (st, Err)                          (* repo.rs:1043-1048 "No staged changes" *)
       | Some s =>
@@ -167,7 +196,7 @@ Definition step (dbg : bool) (st : mc) (c : N) (o : op) : mc * res unit :=
             match mget st id with
             | Some _ => (st, Err)
             | None =>
-                (install st c id (mkObj (mc_next st) (s_head s) (s_versions s ++ [s_state s]))
+                (install st c id (mkObj (mc_next st) (s_head s) (s_versions s ++ [(m, s_state s)]) (s_cfg s))
                          (mc_next st + 1), Ok tt)
             end
           else
@@ -180,12 +209,20 @@ Definition step (dbg : bool) (st : mc) (c : N) (o : op) : mc * res unit :=
                 match vprev dbg (s_head s) with
                 | Ok p =>
                     if vn_number (o_head o) =? vn_number p then
-                      (* fs.rs:443 destination exists: the directory v<head> cannot exist in an object
-                         whose head is head-1 (model abstraction: versions = directories);
-                         fs.rs:462-464: the version directory is moved in and the ROOT inventory is
-                         replaced by the staged inventory - lineages are never compared *)
-                      (install st c id (mkObj (o_lineage o) (s_head s) (s_versions s ++ [s_state s]))
-                               (mc_next st), Ok tt)
+                      (* fs.rs:446-456 (fix 5c18ef1): same padding width, digest algorithm, content directory *)
+                      if (vn_width (o_head o) =? vn_width (s_head s)) && (o_cfg o =? s_cfg s) then
+                        (* fs.rs:458-469 (fix e1679ed): the staged inventory - its head already carries the
+                           commit metadata (repo.rs:1056 update_meta) - must contain every version of the main
+                           object, same_as it *)
+                        if base_same (o_versions o) (s_versions s ++ [(m, s_state s)]) then
+                          (* fs.rs:474 destination exists: the directory v<head> cannot exist in an object
+                             whose head is head-1 (model abstraction: versions = directories);
+                             the version directory is moved in and the ROOT inventory is replaced by the
+                             staged inventory *)
+                          (install st c id (mkObj (o_lineage o) (s_head s) (s_versions s ++ [(m, s_state s)]) (s_cfg s))
+                                   (mc_next st), Ok tt)
+                        else (st, Err)
+                      else (st, Err)
                     else (st, Err)
                 | Err => (st, Panic)               (* unwrap of Err *)
                 | Panic => (st, Panic)
@@ -216,9 +253,27 @@ Fixpoint run_results (dbg : bool) (st : mc) (es : list event) : list (res unit) 
 Definition ev_keeps (c : N) (id : bytes) (e : event) : bool :=
   match snd e with
   | Purge id' => negb (bytes_eqb id' id)
-  | ResetAll id' | Commit id' => negb ((fst e =? c) && bytes_eqb id' id)
+  | ResetAll id' | Commit id' _ => negb ((fst e =? c) && bytes_eqb id' id)
   | _ => true
   end.
 
 (** prefix order on version lists *)
-Definition extends (old new : list vstate) : Prop := exists tl, new = old ++ tl.
+Definition extends (old new : list cver) : Prop := exists tl, new = old ++ tl.
+
+(** * Metadata tokens in use: those of every committed version and of every staged copy *)
+Definition metas (l : list cver) : list N := map fst l.
+Definition st_metas (st : mc) : list N :=
+  flat_map (fun x => metas (o_versions (snd x))) (mc_main st)
+  ++ flat_map (fun x => metas (s_versions (snd x))) (mc_stag st).
+
+(** the commit's metadata is not that of any version known to anyone (what Local::now() gives) *)
+Definition step_fresh (st : mc) (c : N) (o : op) : bool :=
+  match o with
+  | Commit _ m => negb (existsb (N.eqb m) (st_metas st))
+  | _ => true
+  end.
+Fixpoint run_fresh (dbg : bool) (st : mc) (es : list event) : bool :=
+  match es with
+  | [] => true
+  | (c, o) :: r => step_fresh st c o && run_fresh dbg (fst (step dbg st c o)) r
+  end.
